@@ -28,7 +28,10 @@ RULE = (
     "few 0/1-id ones), shallow/expanded, cache_odb = the store itself or a separate one, no index / "
     "fresh index / pre-filled index incl. stale directories and stale files. history: <=10 (quick) / "
     "<=30 (thorough) operations Push(req, fails) / Fetch(local contents, req, fails) / ExtDelete / "
-    "Query over one remote and ONE on-disk ObjectDBIndex; 'closed' stream = closed initial remote and "
+    "Query over one remote (base or local class) and ONE on-disk ObjectDBIndex; a push reads from a "
+    "LocalHashFileDB with protected (0o444) objects; every failing upload (files and - in at least 1 push "
+    "of 5 - a .dir object whose files arrived) raises OSError(EIO), PermissionError(EACCES) or "
+    "FileNotFoundError, chosen per upload; 'closed' stream = closed initial remote and "
     "closed requests (directories with their files, or expanded), 'open' stream = arbitrary. A case is "
     "non-trivial when both answers are non-empty or the index changed (status/compare), resp. when the "
     "index became non-empty and at least one of: a failed upload, a cleared index, an external deletion "
@@ -40,7 +43,9 @@ ASSUMPTIONS = [
     "directory objects in play are parseable canonical listings of file ids (no nested .dir ids); "
     "unparseable ones are C07's subject; objects are intact (their bytes hash to their name)",
     "uploads go through the destination file system's put_file (reflink is disabled in the wrapper so "
-    "that injected failures hit every upload); an upload is atomic (C04/C15 validate that)",
+    "that injected failures hit every upload); an upload is atomic (C04/C15 validate that); single "
+    "writer: the PermissionError exemption of transfer._add (destination object already there and "
+    "protected) never applies, so every injected fault is a failure in the model",
     "the MEMORY-protocol shortcut of status() is not modelled",
     "real ids are renamed to short aliases (files [i], directories [j].dir) before the model is "
     "evaluated - the model only tests ids for equality and for the .dir suffix; the first 16 cases of "
@@ -127,8 +132,22 @@ def parse_listing(data: bytes):
 # real stores
 
 
+FAULT_KINDS = ("eio", "eacces", "enoent")
+
+
+def fault(kind, path):
+    """the exception an injected upload failure raises.  'eacces' is the kind transfer._add exempts
+    when the DESTINATION already holds the protected object (a concurrent writer) - never the
+    case for a single writer, so every injected fault is a failure of that upload"""
+    if kind == "eacces":
+        return PermissionError(errno.EACCES, "Permission denied (injected upload failure)", path)
+    if kind == "enoent":
+        return FileNotFoundError(errno.ENOENT, "No such file or directory (injected upload failure)", path)
+    return OSError(errno.EIO, "injected upload failure")
+
+
 class Injector:
-    """a LocalFileSystem instance whose uploads fail for chosen oids"""
+    """a LocalFileSystem instance whose uploads fail for chosen oids (oid -> fault kind)"""
 
     def __init__(self):
         from dvc_objects.fs.local import FsspecLocalFileSystem, LocalFileSystem
@@ -137,7 +156,7 @@ class Injector:
         # FsspecLocalFileSystem with every other store of the process, so that a patched
         # put_file (and its set of failing ids) leaks into all later operations and cases.
         self.fs = LocalFileSystem(fs=FsspecLocalFileSystem(skip_instance_cache=True))
-        self.failing = set()
+        self.failing = {}
         self.attempted = []
         orig = self.fs.fs.put_file
 
@@ -145,7 +164,7 @@ class Injector:
             oid = "".join(str(rpath).split(os.sep)[-2:])
             self.attempted.append(oid)
             if oid in self.failing:
-                raise OSError(errno.EIO, "injected upload failure")
+                raise fault(self.failing[oid], str(rpath))
             return orig(lpath, rpath, **kw)
 
         def reflink(p1, p2):
@@ -597,12 +616,17 @@ def gen_history_case(rng, max_ops, closed=True):
         if r < 0.38:
             req, sh = request()
             fails = [n for n in close_names(dirs, req) if rng.random() < 0.22] if rng.random() < 0.55 else []
-            ops.append({"op": "push", "req": req, "shallow": sh, "fails": fails})
+            if rng.random() < 0.2:
+                # the .dir upload itself is refused (after the files arrived)
+                fails = sorted(set(fails) | {rng.choice([n for n in req if n in dirs])})
+            ops.append({"op": "push", "req": req, "shallow": sh, "fails": fails,
+                        "kinds": {n: rng.choice(FAULT_KINDS) for n in fails}})
         elif r < 0.5:
             req, sh = request()
             loc = [n for n in universe if rng.random() < 0.35]
             fails = [n for n in close_names(dirs, req) if rng.random() < 0.25] if rng.random() < 0.4 else []
-            ops.append({"op": "fetch", "loc": loc, "req": req, "shallow": sh, "fails": fails})
+            ops.append({"op": "fetch", "loc": loc, "req": req, "shallow": sh, "fails": fails,
+                        "kinds": {n: rng.choice(FAULT_KINDS) for n in fails}})
         elif r < 0.72:
             ops.append({"op": "delete", "n": rng.randint(1, 3), "pick": rng.random(),
                         "prefer_dir": rng.random() < 0.45})
@@ -610,7 +634,7 @@ def gen_history_case(rng, max_ops, closed=True):
             q = rng.sample(universe + ["A0"], rng.randint(1, 6))
             ops.append({"op": "query", "q": q, "shallow": rng.random() < 0.6})
     return {"kind": "history", "dirs": dirs, "src": src, "remote": remote, "ops": ops,
-            "closed": closed, "cls": rng.choice(["base", "base", "local"]),
+            "closed": closed, "cls": rng.choice(["base", "local"]),
             "strategy": rng.choice(["default", "default", "zz", "always-traverse"])}
 
 
@@ -705,13 +729,16 @@ def run_history_case(ctx, case):
         else:
             cap = {}
             push = kind == "push"
+            kinds = op.get("kinds", {})
+            for n in op["fails"]:
+                ctx.count("history-fault:" + kinds.get(n, "eio") + ("/dir" if n.startswith("D") else "/file"))
             if push:
-                inj.failing = {W.oid[n] for n in op["fails"]}
+                inj.failing = {W.oid[n]: kinds.get(n, "eio") for n in op["fails"]}
                 a, b, kw = src, remote, {"dest_index": index}
                 linj = None
             else:
                 linj = Injector()
-                linj.failing = {W.oid[n] for n in op["fails"]}
+                linj.failing = {W.oid[n]: kinds.get(n, "eio") for n in op["fails"]}
                 lpath = os.path.join(root, f"loc{k}")
                 W.plant(lpath, op["loc"])
                 loc = make_store("local", lpath, linj)
@@ -735,7 +762,7 @@ def run_history_case(ctx, case):
             except AssertionError:
                 out = vL([vN(0), vN(10)])
                 stats["errs"] += 1
-            inj.failing = set()
+            inj.failing = {}
             if push:
                 ops_terms.append(f"Push {names(op['req'])} {cbool(op['shallow'])} {names(op['fails'])}")
             else:
